@@ -220,5 +220,5 @@ def _postprocess_lanczos_root_inv_decomp(linear_op, inv_roots, initial_vectors, 
 
     # Choose solve that best fits
     _, best_solve_index = residuals.min(0)
-    inv_root = inv_roots[best_solve_index].squeeze(0)
+    inv_root = inv_roots[best_solve_index]
     return inv_root
